@@ -241,6 +241,30 @@ PROPS["C20"] = {
     ],
 }
 
+_W = ["--weak", "1"]
+PROPS["C07"] = {
+    "level": "exploration",
+    "technique": "property-based testing with a vector-clock happens-before monitor on every payload access, under a generated C++11 weak-memory model (reads-from choices for every non-seq_cst-constrained load are generated data); complemented by generated real-thread programs under ThreadSanitizer",
+    "design_ref": "DESIGN.md §5 C07",
+    "text": "The generated clients of lr_guarded, cow_guarded, rcu_list, deferred_guarded, Latch, Barrier, TriggerVariable, TripWire and the lock wrappers are re-run with weak-memory mode on: each modelled atomic "
+            "keeps its store history and a load may return any store the C++11 coherence and seq_cst rules admit (choice generated). The happens-before monitor then decides whether each granted access is "
+            "ordered after all conflicting earlier ones, including publication clients (data written before arrive/wait/trigger/trigger destruction read after the matching observation). Exploration only.",
+    "assumptions": ["modification order is fixed to execution order (under-approximation of C++11: every behaviour produced is allowed, not every allowed behaviour is produced)",
+                    "compiler reorderings of non-atomic code are outside the model", "plain internal fields (std::map/vector internals, Barrier::count_) are covered by the ThreadSanitizer stage, on x86 executions only"],
+    "stages": [
+        {"family": "lrcow", "flavour": "plain", "target": "C03", "cases": (300000, 4000000), "maxsec": (25, 300), "args": _W},
+        {"family": "rcu", "flavour": "plain", "target": "C05", "cases": (300000, 4000000), "maxsec": (25, 300), "args": _W},
+        {"family": "prims", "flavour": "plain", "target": "C10", "cases": (300000, 3000000), "maxsec": (20, 200), "args": _W},
+        {"family": "prims", "flavour": "plain", "target": "C11", "cases": (300000, 3000000), "maxsec": (20, 200), "args": _W},
+        {"family": "prims", "flavour": "plain", "target": "C09", "cases": (150000, 2000000), "maxsec": (20, 200), "args": _W},
+        {"family": "tripwire", "flavour": "plain", "target": "C19", "cases": (300000, 3000000), "maxsec": (20, 200), "args": _W},
+        {"family": "lrcow", "flavour": "plain", "target": "C04", "cases": (200000, 3000000), "maxsec": (25, 300), "args": _W},
+        {"family": "deferred", "flavour": "plain", "target": "C06", "cases": (200000, 3000000), "maxsec": (25, 300), "args": _W},
+        {"family": "rcu", "flavour": "plain", "target": "C12", "cases": (200000, 3000000), "maxsec": (25, 300), "args": _W},
+        {"family": "locks", "flavour": "plain", "target": "C02", "cases": (200000, 3000000), "maxsec": (25, 300), "args": _W},
+    ],
+}
+
 ALL_IDS = ["C%02d" % i for i in range(1, 21)]
 NOT_YET = "check not built yet in this session (planned, see DESIGN.md §5); not claimed until its machinery exists and has passed its mutant self-test"
 
